@@ -581,8 +581,9 @@ fn two_hop_bounds(c: &Call, view: &crate::sim::IxView, idx: usize, cov: &mut Cov
             }
         }
     }
-    // outer amounts and threshold from the trader's balances (plain mints)
-    if one.plain && two.plain {
+    // outer amounts and threshold from the trader's balances: what leaves the trader's input account (transfer fee included)
+    // and what arrives in the output account (after the fee) are what the amount and the threshold speak about
+    if (one.plain && two.plain) || c.name() == "two_hop_swap_v2" {
         let (in_acct, out_acct) = if c.name() == "two_hop_swap_v2" {
             (c.a("token_owner_account_input"), c.a("token_owner_account_output"))
         } else {
